@@ -435,6 +435,35 @@ fn sgh_case(out: &mut Out, form: &str, lo: u8, hi: u8, populated: bool, lit: u8)
     );
 }
 
+/// install, mask some of the installed gates (present bit cleared, handler address kept), install
+/// again through the same call site: the range must be present again
+fn sgh_reinstall(out: &mut Out, lo: u8, hi: u8, masked: &[u8]) {
+    let mut idt: Box<Idt> = Box::new(Idt::new());
+    let ok1 = catch(|| install_incl(&mut idt, lo, hi)).is_some();
+    for &v in masked {
+        if v >= 32 && v >= lo && v <= hi {
+            let _ = catch(|| unsafe {
+                let a = idt[v].handler_addr();
+                idt[v].set_handler_addr(a).set_present(false);
+            });
+        }
+    }
+    let before = raw(&idt);
+    let ok2 = catch(|| install_incl(&mut idt, lo, hi)).is_some();
+    let after = raw(&idt);
+    out.emit(
+        Ev::new("sgh")
+            .str("form", "incl")
+            .n("lo", lo as i64)
+            .n("hi", hi as i64)
+            .n("populated", 2)
+            .n("cs", current_cs() as i64)
+            .str("k", if ok1 && ok2 { "ok" } else { "panic" })
+            .words("before", &before)
+            .words("after", &after),
+    );
+}
+
 /// enter the gate's handler the way the CPU would: hardware frame (+ error code) on the
 /// interrupted stack, jump to the gate's offset; the stub's own iretq resumes at label 2
 #[inline(never)]
@@ -582,6 +611,9 @@ pub fn run_idt13(out: &mut Out, seed: u64, n: u64) {
         sgh_case(out, "lit", v, v, false, lit);
         sgh_case(out, "lit", v, v, true, lit);
     }
+    sgh_reinstall(out, 32, 255, &[32, 33, 100, 255]);
+    sgh_reinstall(out, 0, 255, &[32, 47, 128, 254]);
+    sgh_reinstall(out, 40, 50, &[40, 45, 50, 60]);
     // (2) delivery into every installed stub.  Only in the dev profile: with optimisation and SSE
     // enabled (this host target; kernel targets disable SSE) LLVM emits an aligned 16-byte load
     // (movaps) from the interrupt frame of `extern "x86-interrupt"` functions whose alignment
@@ -590,6 +622,11 @@ pub fn run_idt13(out: &mut Out, seed: u64, n: u64) {
     let deliver_stubs = cfg!(debug_assertions);
     let mut idt: Box<Idt> = Box::new(Idt::new());
     install_all(&mut idt);
+    // a second table with another general handler, installed later: the stubs of the first
+    // table must keep calling the first handler
+    let mut idt2: Box<Idt> = Box::new(Idt::new());
+    install_other(&mut idt2);
+    std::hint::black_box(&idt2);
     let gates = raw(&idt);
     let (cs, ss) = (current_cs(), current_ss());
     let stacks: Vec<Vec<u8>> = (0..3).map(|_| vec![0u8; 1 << 16]).collect();
